@@ -2,6 +2,7 @@ package props
 
 import (
 	"fmt"
+	"go/types"
 	"strings"
 
 	"golang.org/x/tools/go/ssa"
@@ -603,9 +604,34 @@ func (c *Ctx) decodeKeepsEveryFilter() {
 		// the decode loop, in Decode itself or in a helper it calls
 		var loop *ir.Loop
 		hosts := []*ssa.Function{fn}
+		// paramField: for a helper shared by the decoders that is handed the lists by address (`decodeTopicList(src, ..,
+		// &m.topics, &m.qos)`), the field of the message each pointer parameter stands for at this Decode's call
+		paramField := map[*ssa.Parameter]string{}
 		for _, call := range ir.Calls(fn) {
-			if f := call.Common().StaticCallee(); f != nil && recvNamed(f) == tn && f.Blocks != nil {
+			f := call.Common().StaticCallee()
+			if f == nil || f.Blocks == nil {
+				continue
+			}
+			if recvNamed(f) == tn {
 				hosts = append(hosts, f)
+				continue
+			}
+			if f.Pkg != nil && f.Pkg.Pkg.Path() == pkgMessage && f.Signature.Recv() == nil && len(ir.Loops(f)) > 0 {
+				bound := false
+				for i, a := range call.Common().Args {
+					if i >= len(f.Params) {
+						break
+					}
+					if p := ir.PathOf(a); len(p.Fields) > 0 && p.Root == ssa.Value(fn.Params[0]) {
+						if _, isPtr := f.Params[i].Type().(*types.Pointer); isPtr {
+							paramField[f.Params[i]] = p.Fields[len(p.Fields)-1]
+							bound = true
+						}
+					}
+				}
+				if bound {
+					hosts = append(hosts, f)
+				}
 			}
 		}
 		for _, h := range hosts {
@@ -636,7 +662,11 @@ func (c *Ctx) decodeKeepsEveryFilter() {
 				return false
 			}
 			p := ir.PathOf(st.Addr)
-			if len(p.Fields) == 0 || p.Fields[len(p.Fields)-1] != f {
+			named := len(p.Fields) > 0 && p.Fields[len(p.Fields)-1] == f
+			if prm, isPrm := ir.SeeThrough(st.Addr).(*ssa.Parameter); isPrm && paramField[prm] == f {
+				named = true
+			}
+			if !named {
 				return false
 			}
 			if call, ok := st.Val.(*ssa.Call); ok {
